@@ -1475,7 +1475,9 @@ func (s *c07Sys) Key() string {
 func c07Cfgs(env *mc.Env) []*c07Cfg {
 	g1, r1 := c07Dev{c07GPU, 1}, c07Dev{c07RDMA, 1}
 	base := c07Variant{"base", c07VBase, c07Dev{}}
-	gpuVariants := []c07Variant{base, {"gpu1-unhealthy", c07VUnhealthy, g1}, {"gpu1-removed", c07VRemoved, g1}, {"gpu1-memory-8Gi->4Gi", c07VShrunk, g1}}
+	g0 := c07Dev{c07GPU, 0}
+	// (gpu0: the FIRST minor of the best topology scope turns unhealthy while idle - seed C07-5)
+	gpuVariants := []c07Variant{base, {"gpu1-unhealthy", c07VUnhealthy, g1}, {"gpu1-removed", c07VRemoved, g1}, {"gpu1-memory-8Gi->4Gi", c07VShrunk, g1}, {"gpu0-unhealthy", c07VUnhealthy, g0}}
 	// the largest part comes last: it inherits whatever time the others leave
 	return []*c07Cfg{
 		{name: "hist-gpu2-second-writer", gpus: 2, topo: true, scorer: "", filtered: true, shapes: []string{"W1", "F50"},
